@@ -170,6 +170,10 @@ def cases(ctx):
         un = [interp.push_of(r.choice([sig_like, pub, b"", b"\x01"])) for _ in range(r.randrange(0, 3))]
         if r.random() < 0.2:
             un = [("op", 81), ("op", 99), ("op", 171), ("op", 104)] + un
+        if r.random() < 0.35:
+            # the unlocking part leaves items on the alt stack and the FIRST locking element fails (or not)
+            un = un + [interp.push_of(b"\x07"), ("op", 107), interp.push_of(b"\x08\x09"), ("op", 107)]
+            lk = [r.choice([("op", 105), ("op", 147), ("op", 108), ("op", 106), ("op", 172), ("op", 136), ("op", 0), ("op", 118)])] + lk
         tx["ins"][idx]["script"] = wire.detok(un)
         ext = [None] * ni
         ext[idx] = {"locking": wire.detok(lk).hex(), "satoshis": gen.u64(r)}
@@ -196,6 +200,7 @@ def request_of(case):
         req = {"op": "interp", "tx": case["tx"], "idx": case["idx"], "ext": case["ext"], "max_steps": nb + 1, "mode": "both"}
     # a finished interpreter asked to continue, and (for small programs) k steps + serde/clone of the interpreter object + run()
     req["after_finish"] = True
+    req["collect"] = True
     if nb <= 64 and not case.get("compact"):
         hk = zlib.crc32(repr(sorted(case.items())).encode()) if True else 0
         req["mixed"] = {"k": hk % (nb + 1), "via": ("json", "clone", "json", "none")[(hk >> 8) % 4]}
@@ -278,6 +283,17 @@ def assess(ctx, case, nb, r, build):
     ctx.ev()
     ctx.hit("step_vs_run")
     a_out = "ok" if s["end"] == "none" else "err"
+    ha = o.get("hint_after")
+    if isinstance(ha, dict) and "panic" in ha:
+        ctx.viol("Iterator::size_hint on the interpreter panics after the run has ended: %s @ %s%s" % (C09.norm(ha["panic"]["msg"]), C09.short_file(ha["panic"]["file"]), tag), {})
+    co = o.get("collect")
+    if co is not None:
+        ctx.ev()
+        ctx.hit("consumed_through_collect")
+        if "panic" in co:
+            ctx.viol("consuming the interpreter through an iterator adaptor (take + collect) panics: %s @ %s%s" % (C09.norm(co["panic"]["msg"]), C09.short_file(co["panic"]["file"]), tag), {})
+        elif co["n_ok"] != s["n_ok"]:
+            ctx.viol("consuming the interpreter through an iterator adaptor yields a different number of states than a next() loop%s" % tag, {"collect": co["n_ok"], "loop": s["n_ok"]})
     af = o.get("after_finish")
     if af is not None:
         ctx.ev()
